@@ -234,9 +234,11 @@ Definition dbl_pos (n d : Z) : Q :=        (* n > 0, d > 0 *)
   let e1 := if fst (scaled n d e0) / snd (scaled n d e0) <? 2 ^ 53 then e0 else e0 + 1 in
   let e := Z.max e1 (-1074) in
   q_of_me (rne_div (fst (scaled n d e)) (snd (scaled n d e))) e.
-Definition dbl_exec (q : Q) : Q :=
+Definition dbl_core (q : Q) : Q :=
   match Qnum q with
   | Z0 => 0
   | Zpos p => dbl_pos (Zpos p) (Zpos (Qden q))
   | Zneg p => Qopp (dbl_pos (Zpos p) (Zpos (Qden q)))
   end.
+(* on the reduced fraction, so that == arguments give == results by construction *)
+Definition dbl_exec (q : Q) : Q := dbl_core (Qred q).
